@@ -7,7 +7,7 @@ From stdpp Require Import gmap strings sorting.
 Require Import Grits.Base Grits.ModeDefs Grits.Modes Grits.STypes Grits.Forms Grits.Subst Grits.TcDeps Grits.Expand
                Grits.Tc Grits.TcTop Grits.spec.SynOk Grits.Runtime Grits.spec.RtTyping Grits.spec.Topo
                Grits.proofs.RtSafety Grits.proofs.RtInit Grits.proofs.RtTheorems Grits.proofs.RtTcSyn Grits.proofs.RtTcBisim
-               Grits.proofs.AsyncSync Grits.proofs.InvAll Grits.proofs.DeterminismAll.
+               Grits.proofs.AsyncSync Grits.proofs.InvAll Grits.proofs.InvNP Grits.proofs.DeterminismAll.
 Require Import Grits.spec.Rename Grits.proofs.RenameRun Grits.proofs.RenameSimT Grits.proofs.RenameAlpha.
 
 (* ---------------------------------------------------------------- the initial configurations *)
@@ -121,12 +121,12 @@ Theorem run_decl_alpha p q p' q' md pick fuel :
   in_fragment p' -> in_fragment q' ->
   prog_syn_ok p = true -> prog_syn_ok q = true -> raw_ok p = true -> raw_ok q = true ->
   all_src_b p = true -> all_src_b q = true ->
-  decl_renamed p' q' -> is_np md = false ->
+  decl_renamed p' q' ->
   kind_of (run_program fuel pick md q') = kind_of (run_program fuel pick md p') /\
   labels (final_cfg (run_program fuel pick md q')) = labels (final_cfg (run_program fuel pick md p')) /\
   pids (final_cfg (run_program fuel pick md q')) = pids (final_cfg (run_program fuel pick md p')).
 Proof.
-  intros Ha Ha' Hf Hf' PS PS' RS RS' Hall Hall' (Et & Hfr & Hpr) Hnp. unfold run_program. rewrite Et.
+  intros Ha Ha' Hf Hf' PS PS' RS RS' Hall Hall' (Et & Hfr & Hpr). unfold run_program. rewrite Et.
   destruct (init_invx p p' Ha Hf PS RS Hall) as (HFa & HFn & HI).
   destruct (init_invx q q' Ha' Hf' PS' RS' Hall') as (HFa' & HFn' & HI'). rewrite Et in HI'.
   pose proof (tc_annotations_typed_rt p p' Ha PS RS Hf) as Hst.
@@ -135,12 +135,18 @@ Proof.
   pose proof (teq_rt_laws (p_types p')) as Hlaws.
   set (D := p_types p'). set (teq := teq_rt D).
   apply (run_rel_labels D (p_funs p') (p_funs q') teq (proj1 Hst) HFq Hfr md
-           (fun c => InvX D (p_funs p') teq c /\ (md = Sync -> bufs_empty c))
-           (fun c => InvX D (p_funs q') teq c /\ (md = Sync -> bufs_empty c))).
+           (fun c => InvX D (p_funs p') teq c /\ (md <> Async -> bufs_empty c))
+           (fun c => InvX D (p_funs q') teq c /\ (md <> Async -> bufs_empty c))).
   - intros c [H _]. apply H.
-  - intros c ch d [H1 H2] Hs. eapply (invx_step D (p_funs p') teq Hlaws (proj1 Hst) HFa HFn); eauto.
+  - intros c ch d [H1 H2] Hs. destruct md.
+    + destruct (invx_step D (p_funs p') teq Hlaws (proj1 Hst) HFa HFn Async c ch d eq_refl H1 ltac:(discriminate) Hs) as [G _]. split; [exact G | intros N; contradiction].
+    + destruct (invx_step D (p_funs p') teq Hlaws (proj1 Hst) HFa HFn Sync c ch d eq_refl H1 (fun _ => H2 ltac:(discriminate)) Hs) as [G1 G2]. split; [exact G1 | intros _; apply G2; reflexivity].
+    + destruct (invx_step_np D (p_funs p') teq Hlaws (proj1 Hst) HFa HFn c ch d H1 (H2 ltac:(discriminate)) Hs) as [G1 G2]. split; [exact G1 | intros _; exact G2].
   - intros c [H _]. apply H.
-  - intros c ch d [H1 H2] Hs. eapply (invx_step D (p_funs q') teq Hlaws HFq HFa' HFn'); eauto.
+  - intros c ch d [H1 H2] Hs. destruct md.
+    + destruct (invx_step D (p_funs q') teq Hlaws HFq HFa' HFn' Async c ch d eq_refl H1 ltac:(discriminate) Hs) as [G _]. split; [exact G | intros N; contradiction].
+    + destruct (invx_step D (p_funs q') teq Hlaws HFq HFa' HFn' Sync c ch d eq_refl H1 (fun _ => H2 ltac:(discriminate)) Hs) as [G1 G2]. split; [exact G1 | intros _; apply G2; reflexivity].
+    + destruct (invx_step_np D (p_funs q') teq Hlaws HFq HFa' HFn' c ch d H1 (H2 ltac:(discriminate)) Hs) as [G1 G2]. split; [exact G1 | intros _; exact G2].
   - split; [exact HI | intros _; apply bufs_empty_init].
   - split; [exact HI' | intros _; apply bufs_empty_init].
   - apply init_crel. exact Hpr.
